@@ -320,6 +320,10 @@ def cumprod_aggregate(x, y):
 
 
 def cummin_aggregate(x, y):
+    if x is None:
+        return y
+    elif y is None:
+        return x
     if is_series_like(x) or is_dataframe_like(x):
         return x.where((x < y) | x.isnull(), y, axis=x.ndim - 1)
     else:  # scalar
@@ -327,6 +331,10 @@ def cummin_aggregate(x, y):
 
 
 def cummax_aggregate(x, y):
+    if x is None:
+        return y
+    elif y is None:
+        return x
     if is_series_like(x) or is_dataframe_like(x):
         return x.where((x > y) | x.isnull(), y, axis=x.ndim - 1)
     else:  # scalar
